@@ -24,8 +24,17 @@ pub fn main(args: &[String]) {
     let text = std::fs::read_to_string(input.expect("--in")).expect("read input");
     let rt = tokio::runtime::Builder::new_current_thread().enable_all().build().unwrap();
     let mut out = String::new();
-    for line in text.lines().filter(|l| !l.trim().is_empty()) {
+    // the localization adapter is built once per configuration and then asked by every client of the process: all cases of one
+    // configuration go to ONE instance, in the exported order and then, on a second instance, in the reverse order
+    let lines: Vec<&str> = text.lines().filter(|l| !l.trim().is_empty()).collect();
+    let mut shared: HashMap<String, FixedLocalizationAdapter> = HashMap::new();
+    let n = lines.len();
+    for (pos, line) in lines.iter().chain(lines.iter().rev()).enumerate() {
+        let pass = if pos < n { "fwd" } else { "rev" };
         let rec: Value = serde_json::from_str(line).expect("json");
+        if pass == "rev" && rec["kind"] == "status" {
+            continue;
+        }
         let c = &rec["case"];
         let got = if rec["kind"] == "status" {
             let status = if c["configured"].as_bool().unwrap_or(false) { Some(ServerStatus::default()) } else { None };
@@ -49,7 +58,8 @@ pub fn main(args: &[String]) {
                 }
                 messages.insert(name, m);
             }
-            let a = FixedLocalizationAdapter::new(parts(&c["default"]).join("_"), messages);
+            let cfg_key = format!("{pass}|{}|{}", c["tables"], c["default"]);
+            let a = shared.entry(cfg_key).or_insert_with(|| FixedLocalizationAdapter::new(parts(&c["default"]).join("_"), messages));
             let req = parts(&c["requested"]);
             let reqs = req.join("_");
             let key = c["key"].as_str().unwrap_or("k1");
